@@ -697,6 +697,79 @@ func (c *C19Case) Run() string {
 				}
 				tensor.ReturnTensor(m.T)
 				note = "ReturnTensor(" + m.name + ")"
+			case "MultIter":
+				// two live tensors are iterated together (the same shape, or a vector in two forms): read-only
+				a := pick(st.I)
+				if a == nil || len(a.Shape) == 0 {
+					return
+				}
+				var other *tensor.Dense
+				if len(a.Shape) == 1 && st.K%2 == 0 {
+					other = tensor.New(tensor.Of(a.DT.T), tensor.WithShape(a.Shape[0], 1))
+					note = fmt.Sprintf("MultIterator(fresh(%d,1), %s)", a.Shape[0], a.name)
+				} else {
+					other = tensor.New(tensor.Of(a.DT.T), tensor.WithShape(a.Shape...))
+					note = fmt.Sprintf("MultIterator(fresh%v, %s)", a.Shape, a.name)
+				}
+				named = append(named, a)
+				it := tensor.MultIteratorFromDense(other, a.T)
+				cnt := 0
+				for _, err := it.Next(); err == nil; _, err = it.Next() {
+					cnt++
+				}
+				if cnt != prod(a.Shape) {
+					stepErr = fmt.Sprintf("%s visited %d positions, expected %d", note, cnt, prod(a.Shape))
+				}
+			case "DecodeInto":
+				// a live tensor (possibly a view of another) is the receiver of a decode: it becomes the decoded
+				// tensor, with storage of its own - whatever it shared its old storage with stays as it was
+				recv, src := pick(st.I), pick(st.J)
+				if recv == nil || src == nil || recv == src || recv.DT.Name != src.DT.Name || len(src.Shape) == 0 {
+					return
+				}
+				format := []string{"pb", "gob", "fb"}[abs(st.K)%3]
+				enc, err := c14Encode(format, src.T)
+				note = fmt.Sprintf("%s.%sDecode(%s.%sEncode())", recv.name, format, src.name, format)
+				if err != nil {
+					note += "(encode refused)"
+					return
+				}
+				if _, err := c14DecodeInto(recv.T, format, enc, recv.DT, ""); err != nil {
+					stepErr = note + " failed: " + err.Error()
+					return
+				}
+				named = append(named, recv)
+				a := src.arr()
+				recv.Buf, recv.Idx, recv.Shape = &mBuf{E: append([]interface{}{}, a.E...)}, iota(len(a.E)), cloneInts(a.Shape)
+				recv.preIdx, recv.preShape = nil, nil
+				recv.strides = cloneInts(recv.T.Strides())
+			case "MaskedViewRepoint":
+				// a view object that looked into a masked tensor is re-pointed at an unmasked one and then given a
+				// mask of its own: the masked tensor it used to look into keeps its mask
+				if len(w.masked) == 0 {
+					return
+				}
+				mm := w.masked[abs(st.I)%len(w.masked)]
+				target := pick(st.J)
+				if target == nil || len(target.Shape) == 0 || !target.plain() || target.T.DataOrder().IsNotContiguous() {
+					return // (a clone of a strided view owns the view's gaps: the region of finding F13c)
+				}
+				v, err := mm.T.Slice(RS{0, mm.arr.Shape[0], 1})
+				if err != nil {
+					return
+				}
+				vd := v.(*tensor.Dense)
+				note = fmt.Sprintf("v=%s[:]; %s.SliceInto(v); v.MaskedEqual", mm.name, target.name)
+				if _, err := target.T.SliceInto(vd); err != nil {
+					stepErr = note + ": SliceInto refused: " + err.Error()
+					return
+				}
+				named = append(named, target)
+				if err := vd.MaskedEqual(target.Buf.E[target.Idx[0]]); err != nil {
+					stepErr = note + ": MaskedEqual refused: " + err.Error()
+					return
+				}
+				vd.ResetMask(false)
 			case "NewMasked":
 				if len(w.masked) >= 3 {
 					return
@@ -954,7 +1027,7 @@ func (w *c19World) invariant(named []*mTensor, owneds []*owned, si int, note str
 
 // ---------------------------------------------------------------- generator
 
-var c19Ops = []string{"New", "New", "Slice", "Slice", "T", "T", "UT", "UT", "Transpose", "RollAxis", "Reshape", "Clone", "Materialize", "SafeT", "SafeT", "Arith", "Arith", "Arith", "Sum", "Sum", "At", "SetAt", "Repeat", "RepeatReuse", "TensorMul", "ReturnTensor", "ReturnTensor", "UsePool", "DontUsePool", "GC", "NewMasked", "MaskedViewReturn", "ReturnMasked"}
+var c19Ops = []string{"New", "New", "Slice", "Slice", "T", "T", "UT", "UT", "Transpose", "RollAxis", "Reshape", "Clone", "Materialize", "SafeT", "SafeT", "Arith", "Arith", "Arith", "Sum", "Sum", "At", "SetAt", "Repeat", "RepeatReuse", "TensorMul", "ReturnTensor", "ReturnTensor", "UsePool", "DontUsePool", "GC", "NewMasked", "MaskedViewReturn", "ReturnMasked", "MultIter", "DecodeInto", "MaskedViewRepoint"}
 
 func genC19(rt *rapid.T, minLen, maxLen int) *C19Case {
 	n := rapid.IntRange(minLen, maxLen).Draw(rt, "len")
@@ -986,7 +1059,7 @@ func TestC19(t *testing.T) {
 		c := genC19(rt, 5, 40)
 		for i := range c.Steps {
 			if i >= 2 && rapid.IntRange(0, 2).Draw(rt, "bias") == 0 {
-				c.Steps[i].Op = rapid.SampledFrom([]string{"RollAxis", "UT", "T", "ReturnTensor", "New", "Slice", "Transpose", "Clone", "SafeT", "Reshape", "RepeatReuse", "NewMasked", "MaskedViewReturn", "ReturnMasked"}).Draw(rt, "bop")
+				c.Steps[i].Op = rapid.SampledFrom([]string{"RollAxis", "UT", "T", "ReturnTensor", "New", "Slice", "Transpose", "Clone", "SafeT", "Reshape", "RepeatReuse", "NewMasked", "MaskedViewReturn", "ReturnMasked", "MultIter", "DecodeInto", "MaskedViewRepoint"}).Draw(rt, "bop")
 			}
 		}
 		return c
